@@ -61,6 +61,15 @@ def run(rep, tier):
     rule_d2(rep, tier)
     tables.rule_tables(rep, tier, "C09.D1", families=("xof", "xofa", "hash", "hasha", "kmac", "kmaca"))
     rule_d3(rep, tier)
+    # D4: the masked AEAD gives the specification's result in every share configuration (fresh and re-randomised
+    # key objects, all key values, all masking randomness) - hence identical results across those builds
+    from . import rules_c10
+    cfgs = [repo.Config("c64", 4, 2, 4), repo.Config("c64", 3, 2, 3), repo.Config("c32", 4, 3, 3), repo.Config("c64", 2, 2, 2),
+            repo.Config("c32", 3, 1, 3), repo.Config("c64", 2, 2, 4)]
+    if tier != "quick":
+        cfgs += [repo.Config("c32", 4, 4, 4), repo.Config("c64", 3, 3, 3), repo.Config("c64", 4, 1, 4), repo.Config("c32", 2, 1, 2),
+                 repo.Config("c64", 3, 3, 4), repo.Config("direct", 4, 2, 4), repo.Config("direct", 3, 2, 3)]
+    rules_c10.rule_key_lifecycle(rep, tier, rid="C09.D4", cfgs=cfgs, prop="C09")
 
 
 def rule_d2(rep, tier):
